@@ -48,7 +48,12 @@ func VerifC19_PolicyEnforced() {
 	}
 	burst := ndU32("burst")
 	vAssume(burst >= 1)
-	vAssume(m.SetSubscriberQoS(&SubscriberQoS{IP: ip, DownloadBPS: rate, UploadBPS: rate, BurstBytes: burst}) == nil)
+	// the other direction has its own rate (possibly unlimited)
+	up := vRates[ndPick("up-rate", len(vRates))]
+	if ndPick("up-unlimited", 2) == 1 {
+		up = 0
+	}
+	vAssume(m.SetSubscriberQoS(&SubscriberQoS{IP: ip, DownloadBPS: rate, UploadBPS: up, BurstBytes: burst}) == nil)
 	size := ndU32("size")
 	vAssume(size >= 1 && size <= 65535)
 	vBPFSkbLen(size)
@@ -57,11 +62,13 @@ func VerifC19_PolicyEnforced() {
 	// after the first packet the bucket stored under the subscriber's key has been touched iff the key matched
 	var tb TokenBucket
 	key := ipToKey(ip)
-	vAssume(m.qosEgress.Lookup(&key, &tb) == nil)
-	vAssert(tb.RateBPS == rate && tb.BurstBytes == burst, "bucket under the subscriber's key does not carry the configured policy")
+	found := m.qosEgress.Lookup(&key, &tb) == nil
 	if rate == 0 {
 		vAssert(v == tcOK, "rate 0 (unlimited) dropped a packet")
+		vAssert(!found || tb.RateBPS == 0, "an unlimited direction is limited by a stale bucket")
 	} else {
+		vAssert(found, "a limited direction has no bucket under the subscriber's key (its traffic is not limited at all)")
+		vAssert(tb.RateBPS == rate && tb.BurstBytes == burst, "bucket under the subscriber's key does not carry the configured policy")
 		// the bucket starts full: the first packet passes iff it fits into the burst, and the program must have used THIS bucket
 		if size <= burst {
 			vAssert(v == tcOK && tb.Tokens == uint64(burst-size), "first packet within the burst was not admitted from the subscriber's bucket (key mismatch between control plane and program?)")
